@@ -272,4 +272,243 @@ Proof.
   split; [nia|]. split; assumption.
 Qed.
 
+(** * findSegStartTime computes S *)
+Lemma findSegStartTime_spec c n : 0 <= n ->
+  findSegStartTime r loopMS c (startNr c + n) = Ok (S r n).
+Proof.
+  intros Hn. unfold findSegStartTime. pose proof N_pos as HN. fold N.
+  destruct (N =? 0) eqn:E0; [lia|].
+  replace (startNr c + n - startNr c) with n by lia.
+  rewrite Z.quot_div_nonneg by lia.
+  replace (n - n / N * N) with (n mod N) by (Z.div_mod_to_equations; nia).
+  unfold N. rewrite (segAt_ok r) by (fold N; Z.div_mod_to_equations; lia).
+  rewrite (wrapDur_eq r loopMS W). unfold S. reflexivity.
+Qed.
+
+(** * The first segment of a cycle *)
+
+(** [isFirst X m]: m is the first segment that starts at or after X *)
+Definition isFirst (X m : Z) : Prop := 0 <= m /\ X <= S r m /\ (m = 0 \/ S r (m - 1) < X).
+
+Lemma isFirst_min X m : isFirst X m -> forall j, 0 <= j -> (X <= S r j <-> m <= j).
+Proof.
+  intros (Hm & Hge & Hprev) j Hj. split.
+  - intros HX. destruct Hprev as [->|Hprev]; [assumption|].
+    destruct (Z_le_gt_dec m j) as [|Hgt]; [assumption|exfalso].
+    pose proof (S_le j (m - 1) Hj ltac:(lia)). lia.
+  - intros Hmj. pose proof (S_le m j Hm Hmj). lia.
+Qed.
+
+Lemma isFirst_unique X a b : isFirst X a -> isFirst X b -> a = b.
+Proof.
+  intros Ha Hb.
+  pose proof (proj1 (isFirst_min X a Ha b ltac:(destruct Hb; assumption)) ltac:(destruct Hb as (_ & ? & _); assumption)).
+  pose proof (proj1 (isFirst_min X b Hb a ltac:(destruct Ha; assumption)) ltac:(destruct Ha as (_ & ? & _); assumption)).
+  lia.
+Qed.
+
 End Rep.
+
+(** * The schedule: which request a statuscode_ pattern hits (specification side) *)
+
+(** the least m in [0, k] with S m >= X, given S k >= X: walk down from k *)
+Fixpoint firstGE (r : rep) (X : Z) (k : nat) : Z :=
+  match k with
+  | O => 0
+  | Datatypes.S k' => if S r (Z.of_nat k') >=? X then firstGE r X k' else Z.of_nat k
+  end.
+
+(** start (in ticks) of the cycle in which segment n starts; cycles of [cycle] seconds from the
+    start of the stream *)
+Definition cycleStart (r : rep) (cycle n : Z) : Z := S r n / (cycle * ts r) * (cycle * ts r).
+
+(** first segment that starts in the cycle of segment n *)
+Definition firstInCycle (r : rep) (cycle n : Z) : Z := firstGE r (cycleStart r cycle n) (Z.to_nat n).
+
+(** the code the schedule prescribes for segment n of representation repID, 0 = none *)
+Fixpoint scheduleCode (r : rep) (codes : list sscode) (repID : string) (n : Z) : Z :=
+  match codes with
+  | [] => 0
+  | ss :: rest =>
+    if repInReps repID (sc_reps ss) && (n - firstInCycle r (sc_cycle ss) n =? sc_rsq ss) then sc_code ss
+    else scheduleCode r rest repID n
+  end.
+
+(** what a pattern must satisfy for the theorems: a positive cycle that is not shorter than the
+    first segment, no overflow of cycle*timescale *)
+Definition goodCode (r : rep) (ss : sscode) : Prop :=
+  0 < sc_cycle ss /\ sc_cycle ss * ts r < two63 /\ E r 0 <= sc_cycle ss * ts r.
+
+Section Sched.
+Variable r : rep.
+Variable loopMS : Z.
+Hypothesis W : wf r loopMS.
+
+Lemma firstGE_spec X k : X <= S r (Z.of_nat k) ->
+  isFirst r X (firstGE r X k) /\ firstGE r X k <= Z.of_nat k.
+Proof.
+  induction k as [|k IH]; intros HX; cbn [firstGE].
+  - split; [|lia]. split; [lia|]. split; [exact HX|left; reflexivity].
+  - destruct (S r (Z.of_nat k) >=? X) eqn:E.
+    + destruct (IH ltac:(lia)) as [H1 H2]. split; [exact H1|lia].
+    + split; [|lia]. split; [lia|]. split; [exact HX|]. right.
+      replace (Z.of_nat (Datatypes.S k) - 1) with (Z.of_nat k) by lia. lia.
+Qed.
+
+Lemma cycleStart_le cycle n : 0 < cycle -> 0 <= n -> 0 <= cycleStart r cycle n <= S r n.
+Proof.
+  intros Hc Hn. pose proof (wf_ts _ _ W). pose proof (S_nonneg r loopMS n W Hn).
+  unfold cycleStart. assert (0 < cycle * ts r) by nia.
+  pose proof (Z.mul_div_le (S r n) (cycle * ts r) ltac:(lia)).
+  assert (0 <= S r n / (cycle * ts r)) by (apply Z.div_pos; lia). nia.
+Qed.
+
+Lemma firstInCycle_spec cycle n : 0 < cycle -> 0 <= n ->
+  isFirst r (cycleStart r cycle n) (firstInCycle r cycle n) /\ firstInCycle r cycle n <= n.
+Proof.
+  intros Hc Hn. unfold firstInCycle.
+  pose proof (firstGE_spec (cycleStart r cycle n) (Z.to_nat n)) as H.
+  rewrite Z2Nat.id in H by lia. apply H. apply cycleStart_le; assumption.
+Qed.
+
+(** the first number computed by calcStatusCode for one pattern *)
+Definition codeFirstNr (c : tcfg) (startTime repTs cycle : Z) : res Z :=
+  let cycleInTimescale := i64 (cycle * repTs) in
+  let nrWraps := Z.quot startTime cycleInTimescale in
+  let wrapStartS := nrWraps * cycle in
+  let firstNr0 := if nrWraps >? 0 then findLastSegNr r loopMS c (wrapStartS * 1000) + 1 else 0 in
+  do segTime <- findSegStartTime r loopMS c firstNr0;
+  Ok (if segTime <? wrapStartS * repTs then firstNr0 + 1 else firstNr0).
+
+Lemma codeFirstNr_spec c ss n :
+  startS c = 0 -> startNr c = 0 -> repDuration r < two64 -> goodCode r ss -> 0 <= n ->
+  codeFirstNr c (S r n) (ts r) (sc_cycle ss) = Ok (firstInCycle r (sc_cycle ss) n).
+Proof.
+  intros Hst Hsn HD (Hc & Hov & HE0) Hn. pose proof (wf_ts _ _ W) as Hts.
+  pose proof (S_nonneg r loopMS n W Hn) as HS0.
+  set (cycle := sc_cycle ss) in *. set (cyT := cycle * ts r) in *.
+  assert (HcyT : 0 < cyT) by (unfold cyT; nia).
+  unfold codeFirstNr. fold cycle. fold cyT. rewrite (i64_id cyT) by (unfold two63 in *; lia).
+  rewrite Z.quot_div_nonneg by lia.
+  set (q := S r n / cyT).
+  assert (Hq : 0 <= q) by (apply Z.div_pos; lia).
+  assert (HX : cycleStart r cycle n = q * cyT) by reflexivity.
+  destruct (firstInCycle_spec cycle n Hc Hn) as [Hfirst Hle]. rewrite HX in Hfirst.
+  assert (Hfs : forall m, 0 <= m -> findSegStartTime r loopMS c m = Ok (S r m)).
+  { intros m Hm. pose proof (findSegStartTime_spec r loopMS W c m Hm) as H. now rewrite Hsn in H. }
+  replace (q * cycle * ts r) with (q * cyT) by (unfold cyT; ring).
+  destruct (q >? 0) eqn:Eq.
+  - (* a later cycle: the timeline at the cycle start *)
+    pose proof (findLastSegNr_spec r loopMS W c (q * cycle * 1000) Hst ltac:(nia) HD) as HL.
+    replace (q * cycle * 1000 * ts r / 1000) with (q * cyT) in HL
+      by (replace (q * cycle * 1000 * ts r) with (q * cyT * 1000) by (unfold cyT; ring); now rewrite Z.div_mul by lia).
+    specialize (HL ltac:(nia)). cbn zeta in HL.
+    set (L := findLastSegNr r loopMS c (q * cycle * 1000)) in *. destruct HL as (HL0 & HL1 & HL2).
+    rewrite Hfs by lia. cbn [bind]. f_equal.
+    rewrite <- (S_E_contiguous r loopMS W) in HL1 by lia.
+    destruct (S r (L + 1) <? q * cyT) eqn:Elt.
+    + apply (isFirst_unique r loopMS W (q * cyT)); [|exact Hfirst].
+      split; [lia|]. split.
+      * replace (L + 1 + 1) with ((L + 1) + 1) by lia. rewrite (S_E_contiguous r loopMS W) by lia. lia.
+      * right. replace (L + 1 + 1 - 1) with (L + 1) by lia. lia.
+    + apply (isFirst_unique r loopMS W (q * cyT)); [|exact Hfirst].
+      split; [lia|]. split; [lia|]. right. replace (L + 1 - 1) with L by lia.
+      pose proof (S_lt_E r loopMS W L HL0). rewrite (S_E_contiguous r loopMS W) in HL1 by lia. lia.
+  - (* the first cycle *)
+    assert (q = 0) by lia. rewrite Hfs by lia. cbn [bind]. f_equal.
+    rewrite (S_0 r loopMS W). replace (q * cyT) with 0 by lia. cbn.
+    apply (isFirst_unique r loopMS W (q * cyT)); [|exact Hfirst].
+    split; [lia|]. split; [rewrite (S_0 r loopMS W); lia|left; reflexivity].
+Qed.
+
+Lemma statusLoop_cons c repID startTime repTs nr ss rest :
+  statusLoop r loopMS c repID startTime repTs nr (ss :: rest) =
+  if negb (repInReps repID (sc_reps ss)) then statusLoop r loopMS c repID startTime repTs nr rest else
+  if i64 (sc_cycle ss * repTs) =? 0 then Panic "calcStatusCode: integer divide by zero" else
+  do firstNr <- codeFirstNr c startTime repTs (sc_cycle ss);
+  if nr - firstNr <? 0 then Err "segment is before first segment"
+  else if nr - firstNr =? sc_rsq ss then Ok (sc_code ss)
+  else statusLoop r loopMS c repID startTime repTs nr rest.
+Proof.
+  cbn [statusLoop]. destruct (negb (repInReps repID (sc_reps ss))); [reflexivity|].
+  destruct (i64 (sc_cycle ss * repTs) =? 0); [reflexivity|].
+  unfold codeFirstNr.
+  destruct (findSegStartTime r loopMS c _); reflexivity.
+Qed.
+
+(** calcStatusCode computes the schedule: the code of the first pattern (in order) whose
+    representation filter matches and whose relative number is n - firstInCycle. *)
+Lemma statusLoop_spec c repID n codes :
+  startS c = 0 -> startNr c = 0 -> repDuration r < two64 -> Forall (goodCode r) codes -> 0 <= n ->
+  statusLoop r loopMS c repID (S r n) (ts r) n codes = Ok (scheduleCode r codes repID n).
+Proof.
+  intros Hst Hsn HD Hgood Hn. induction Hgood as [|ss rest Hss _ IH]; [reflexivity|].
+  rewrite statusLoop_cons. cbn [scheduleCode].
+  destruct (repInReps repID (sc_reps ss)) eqn:Erep; cbn [negb andb]; [|exact IH].
+  pose proof Hss as (Hc & Hov & HE0). pose proof (wf_ts _ _ W) as Hts.
+  rewrite i64_id by (unfold two63 in *; nia).
+  destruct (sc_cycle ss * ts r =? 0) eqn:E0; [nia|].
+  rewrite (codeFirstNr_spec c ss n Hst Hsn HD Hss Hn). cbn [bind].
+  destruct (firstInCycle_spec (sc_cycle ss) n Hc Hn) as [_ Hle].
+  destruct (n - firstInCycle r (sc_cycle ss) n <? 0) eqn:Eneg; [lia|].
+  destruct (n - firstInCycle r (sc_cycle ss) n =? sc_rsq ss); [reflexivity|exact IH].
+Qed.
+
+(** the answer the schedule prescribes: the code, or the answer without the parameter *)
+Definition scheduled (codes : list sscode) (repID : string) (n base : Z) : Z :=
+  let k := scheduleCode r codes repID n in if k =? 0 then base else k.
+
+Definition timedAnswer (t : tv) (a : Z) : answer :=
+  match t with TvOk => AStatus a | TvTooEarly _ => AStatus 425 | TvGone => AStatus 410 end.
+
+Lemma calcStatusCode_spec c codes repID n nr :
+  startS c = 0 -> startNr c = 0 -> repDuration r < two64 -> Forall (goodCode r) codes -> 0 <= n ->
+  S r n < two63 -> ts r < two32 -> nr = n ->
+  calcStatusCode r loopMS c codes repID (metaOf r c n nr) = Ok (scheduleCode r codes repID n).
+Proof.
+  intros Hst Hsn HD Hgood Hn HS Hts ->. unfold calcStatusCode, metaOf. cbn [newTime mtimescale newNr].
+  pose proof (S_nonneg r loopMS n W Hn). pose proof (wf_ts _ _ W).
+  rewrite u64_id by (unfold two63, two64 in *; lia). rewrite i64_id by (unfold two63 in *; lia).
+  rewrite u32_id by lia. now apply statusLoop_spec.
+Qed.
+
+(** A request by number (video, or audio: the reference segment with the same number). *)
+Lemma segAnswer_number c codes repID audio n now base :
+  startS c = 0 -> startNr c = 0 -> repDuration r < two64 -> Forall (goodCode r) codes -> codes <> [] ->
+  0 <= n < two32 -> S r n < two63 -> ts r < two32 -> 0 <= now ->
+  segAnswer r loopMS c codes repID audio ByNumber n now base =
+  timedAnswer (checkTime (E r n) (ts r) now (tsbdS c) (ato c)) (scheduled codes repID n base).
+Proof.
+  intros Hst Hsn HD Hgood Hne Hn HS Hts Hnow. unfold segAnswer. rewrite Hst. cbn [Z.mul].
+  destruct (now <? 0) eqn:E0; [lia|]. destruct codes as [|c0 cs] eqn:Ec; [congruence|]. rewrite <- Ec in *.
+  assert (Hf : findSegMeta r loopMS c audio ByNumber n now = lookup r loopMS c ByNumber n now)
+    by (unfold findSegMeta; destruct audio as [[? ?]|]; reflexivity).
+  rewrite Hf. pose proof (lookup_number r loopMS c n now ltac:(lia) ltac:(lia) ltac:(lia)) as Hl.
+  rewrite Hsn in Hl. cbn [Z.add] in Hl. rewrite Hl.
+  pose proof (segMetaFromNr_spec r loopMS W c n now ltac:(lia)) as Hm. rewrite Hsn, Hst in Hm. cbn [Z.add Z.mul] in Hm.
+  rewrite Hm. rewrite Z.add_0_r.
+  destruct (checkTime (E r n) (ts r) now (tsbdS c) (ato c)); cbn [timed timedAnswer]; [|reflexivity|reflexivity].
+  rewrite (calcStatusCode_spec c codes repID n n Hst Hsn HD Hgood ltac:(lia) HS Hts eq_refl).
+  unfold scheduled. destruct (scheduleCode r codes repID n =? 0); reflexivity.
+Qed.
+
+(** A video request by time ($Time$ addressing): the segment that starts at S n. *)
+Lemma segAnswer_time c codes repID n now base :
+  startS c = 0 -> startNr c = 0 -> repDuration r < two64 -> Forall (goodCode r) codes -> codes <> [] ->
+  0 <= n < two32 -> S r n < two63 -> ts r < two32 -> 0 <= now ->
+  segAnswer r loopMS c codes repID None ByTime (S r n) now base =
+  timedAnswer (checkTime (E r n) (ts r) now (tsbdS c) (ato c)) (scheduled codes repID n base).
+Proof.
+  intros Hst Hsn HD Hgood Hne Hn HS Hts Hnow. unfold segAnswer. rewrite Hst. cbn [Z.mul].
+  destruct (now <? 0) eqn:E0; [lia|]. destruct codes as [|c0 cs] eqn:Ec; [congruence|]. rewrite <- Ec in *.
+  pose proof (S_nonneg r loopMS n W ltac:(lia)) as HS0. pose proof (wf_ts _ _ W).
+  unfold findSegMeta. rewrite lookup_time by (unfold two63, two64 in *; lia).
+  rewrite (segMetaFromTime_spec r loopMS W) by lia. rewrite Hsn, Hst. cbn [Z.add Z.mul]. rewrite Z.add_0_r.
+  destruct (checkTime (E r n) (ts r) now (tsbdS c) (ato c)); cbn [timed timedAnswer]; [|reflexivity|reflexivity].
+  unfold calcStatusCode. cbn [newTime mtimescale newNr].
+  rewrite i64_id by (unfold two63 in *; lia). rewrite !u32_id by lia.
+  rewrite (statusLoop_spec c repID n codes Hst Hsn HD Hgood ltac:(lia)). unfold scheduled.
+  destruct (scheduleCode r codes repID n =? 0); reflexivity.
+Qed.
+
+End Sched.
